@@ -6,6 +6,8 @@ VERIF = os.path.dirname(os.path.dirname(os.path.abspath(__file__)))
 ids = [a for a in sys.argv[1:] if not a.startswith('--')]
 props = None
 full = '--full' in sys.argv
+# --wt: apply in a scratch worktree of /repo (under /tmp) and point the checks at it through VERIF_REPO, so /repo stays untouched
+use_wt = '--wt' in sys.argv
 for a in sys.argv[1:]:
     if a.startswith('--props='):
         props = a.split('=')[1].split(',')
@@ -13,28 +15,41 @@ claims = json.load(open(os.path.join(VERIF, 'claims.json')))
 allp = sorted(p for p, c in claims.items() if c.get('claimed'))
 out = {}
 st = subprocess.run(['git', '-C', '/repo', 'status', '--porcelain', '--untracked-files=no'], capture_output=True, text=True).stdout.strip()
-if st:
+if st and not use_wt:
     print('refusing: /repo has local modifications'); sys.exit(2)
 for sid in sorted(x for x in os.listdir(os.path.join(VERIF, 'seeded')) if os.path.isdir(os.path.join(VERIF, 'seeded', x))):
     if ids and sid not in ids:
         continue
     d = os.path.join(VERIF, 'seeded', sid)
     meta = json.load(open(os.path.join(d, 'meta.json')))
+    target = '/repo'
+    env = dict(os.environ)
+    if use_wt:
+        import tempfile
+        target = tempfile.mkdtemp(prefix='rivia-seedrun-'); os.rmdir(target)
+        subprocess.run(['git', '-C', '/repo', 'worktree', 'add', '-q', '--detach', target, 'HEAD'], check=True)
+        env['VERIF_REPO'] = target
     try:
-        subprocess.run(['git', '-C', '/repo', 'apply', os.path.join(d, 'patch.diff')], check=True)
+        subprocess.run(['git', '-C', target, 'apply', os.path.join(d, 'patch.diff')], check=True)
         res = {}
         plist = props or (allp if full else sorted(set([meta['breaks_property'], 'C12']) & set(allp)) or allp)
         for p in plist:
-            r = subprocess.run(['./check', p], cwd=VERIF, capture_output=True, text=True)
+            r = subprocess.run(['./check', p], cwd=VERIF, capture_output=True, text=True, env=env)
             v = [l for l in r.stdout.split('\n') if l.startswith('VIOLATION')]
             u = [l for l in r.stdout.split('\n') if l.startswith('UNDECIDED')]
             res[p] = {'rc': r.returncode, 'violations': len(v), 'first': (v or u or [''])[0][:160],
                       'obligations': sorted(set(re.findall(r'failed obligation (\S+)', r.stdout)))}
     finally:
-        subprocess.run(['git', '-C', '/repo', 'checkout', '--', '.'])
+        if use_wt:
+            subprocess.run(['git', '-C', '/repo', 'worktree', 'remove', '--force', target])
+        else:
+            subprocess.run(['git', '-C', '/repo', 'checkout', '--', '.'])
     caught = [p for p, x in res.items() if x['rc'] == 1]
     und = [p for p, x in res.items() if x['rc'] == 2]
     out[sid] = {'breaks': meta['breaks_property'], 'caught_by': caught, 'undecided': und, 'detail': {p: x for p, x in res.items() if x['rc'] != 0}}
     print('%-8s breaks=%s caught_by=%s undecided=%s %s' % (sid, meta['breaks_property'], ','.join(caught) or '-', ','.join(und) or '-',
           '; '.join('%s:%s' % (p, ','.join(x['obligations'])) for p, x in res.items() if x['rc'] == 1)), flush=True)
-json.dump(out, open(os.path.join(VERIF, 'seeded', 'RESULTS.json'), 'w'), indent=1)
+rp = os.path.join(VERIF, 'seeded', 'RESULTS.json')
+allr = json.load(open(rp)) if os.path.exists(rp) else {}
+allr.update(out)
+json.dump(allr, open(rp, 'w'), indent=1, sort_keys=True)
